@@ -989,25 +989,23 @@ class Terminal:
                 while stop < len(data):
                     start = stop
                     stop = min(len(data), start + self.mbx_out_sz - 9)
-                    if stop == len(data):
-                        if stop - start < 7:
-                            cmd = 1 + (7-stop+start << 1)
-                            d = data[start:stop] + b"\0" * (7 - stop + start)
-                        else:
-                            cmd = 1
-                            d = data[start:stop]
-                        await self.mbx_send(
-                                MBXType.COE, "HBHB4x", CoECmd.SDOREQ.value << 12,
-                                cmd + toggle, index,
-                                1 if subindex is None else subindex, data=d)
-                        type, data = await self.mbx_recv()
-                        if type is not MBXType.COE:
-                            raise EtherCatError(f"expected CoE, got {type}")
-                        coecmd, sdocmd, idx, subidx = unpack("<HBHB", data[:6])
-                        if coecmd >> 12 != CoECmd.SDORES.value:
-                            raise EtherCatError(f"expected CoE SDORES")
-                        if idx != index or subindex != subidx:
-                            raise EtherCatError(f"requested index {index}")
+                    d = data[start:stop]
+                    cmd = 1 if stop == len(data) else 0
+                    if len(d) < 7:
+                        cmd += 7 - len(d) << 1
+                        d += b"\0" * (7 - len(d))
+                    await self.mbx_send(
+                            MBXType.COE, "HB", CoECmd.SDOREQ.value << 12,
+                            cmd + toggle, data=d)
+                    type, rdata = await self.mbx_recv()
+                    if type is not MBXType.COE:
+                        raise EtherCatError(f"expected CoE, got {type}")
+                    coecmd, sdocmd = unpack("<HB", rdata[:3])
+                    if coecmd >> 12 != CoECmd.SDORES.value:
+                        raise EtherCatError(f"expected CoE SDORES")
+                    if sdocmd != 0x20 + toggle:
+                        raise EtherCatError(
+                            f"unexpected segment response {sdocmd:x}")
                     toggle ^= 0x10
 
     async def read_object_entry(self, index, subidx):
